@@ -1,6 +1,7 @@
 /-
-  Property C14 — CLI contract: library output, exit status 0/1/2, -o, stdin.
-  Statement file (proofs in JdProofs/CliProofs.lean, namespace `Jd.Cli`).
+  Property C14 — CLI contract: library output, exit status 0/1/2, -o, stdin, -p round trip.
+  Statement file (proofs in JdProofs/CliProofs.lean, namespace `Jd.Cli`: the contract of ONE run;
+  JdProofs/CliRoundTrip.lean, namespace `Jd.CliRT`: the `-p` round trip, TWO runs, last section).
 
   Model side: `cliM b fl r` (JdModel/Cli.lean) is the decision logic of the two `main.go` files as a
   pure function: `b : Binary` is `v2jd` (v2/jd/main.go), `top` (main.go) or `topV1` (main.go started
@@ -24,11 +25,67 @@
     image of the v2 options under the renaming `toV1`);
     reading the second input (or the only input, in translate mode) from stdin is equivalent to
     naming a file.
+  THE `-p` ROUND TRIP ON THE CLI MODEL (last section; "feeding the output of `jd [flags] a b` to
+  `jd -p [flags]` on a reproduces b, in jd, patch and merge formats, for JSON and YAML").
+    To speak about TWO runs whose library results are related (the second run reads the text the
+    first one printed) the library calls `main` makes are made explicit: `CliRT.Lib N D` (the
+    functions `readDoc yaml`, `diff opts`, `renderJd color`, `renderPatch`, `renderMerge`, `readDiff fmt`,
+    `patch`, `renderDoc yaml opts`; no option reaches a reader or `Patch`, as in `printPatch`),
+    `CliRT.Env` (what the OS returns: bytes of the first / second input, result of writing `-o`),
+    `CliRT.proc Ls b fl e` = THE PROCESS: `cliM b fl` on the `LibResults` obtained by making exactly the
+    calls of the plan `planOf b fl` on the library `Ls v1` the plan selects (`Ls true` the v1, `Ls false`
+    the v2 library), `CliRT.emitted o` the bytes that leave the program (`-o` file if written, else
+    stdout), `CliRT.PatchTwin fl fl2`: `fl2` is `jd -p [the same flags]` (`-p` set, no `-t` / `-version` /
+    `-port` / git driver, the same `-f -set -mset -setkeys -precision -yaml -color -v2`, ANY `-o`, one or two
+    arguments).
+    1. SAME OPTIONS, SAME LIBRARY, SAME READERS (`patch_run_same_options`, `patch_run_same_library`,
+       `patch_run_plan`, `plans_agree`): for every binary, every diff command line and every `-p` twin the
+       two plans name the same library, the same option list and the same COLOR flag, and both read
+       `flag.Arg(0)` first. No flag combination with different option lists exists in the model.
+    2. RELATIVE TO THE LIBRARY ROUND TRIP (`cli_round_trip`; `core_round_trip` for one library on `cliM`
+       directly): `CliRT.LibRoundTrip L fmt color opts a b Post` says, for ONE pair of parsed documents:
+       whatever text `T` the diff of `a` and `b` renders to in the format `fmt`, the reader of that format
+       accepts `T`, `patch a` of the diff read succeeds with `r`, and `Post r`. IF it holds for what the
+       inputs parse to, the first process did not exit 2, FILE1 of the second run holds the bytes the
+       first run emitted, its second input the bytes of the first input of the first run, and writing
+       its `-o` file (if any) succeeds, THEN the second process exits 0 with nothing on stderr and emits
+       EXACTLY `Json(options…)` / `Yaml(options…)` of that `r` — on stdout without `-o`, in the file (and
+       nothing on stdout) with `-o`. All three binaries, formats jd / patch / merge, JSON / YAML, `-o` in
+       either run, file or stdin in either run, first exit status 0 or 1: the CLI adds nothing to and
+       loses nothing from the library round trip.
+    3. HYPOTHESIS-FREE ON THE LIBRARY SIDE FOR THE NATIVE FORMAT, LIST READING (`native_cli_round_trip`):
+       `Ls false` is the model of the v2 library (`CliRT.nativeLib nc Y`: `readJsonM`, `diffM`, `renderM`,
+       `readDiffM`, `patchM`, `jsonM`, …; the YAML carrier `Y` is a parameter about which nothing is
+       assumed), `-f jd`, no `-set -mset -setkeys`, no `-color`, any `-precision`, any `-yaml`, any `-o`, one or
+       two arguments. `LibRoundTrip` is discharged by C02 (E4) (`Jd.E2E.diff_print_read_patch`); what remains
+       are the hypotheses of THAT theorem on the two parsed documents (list documents, sorted keys,
+       finite numbers, `HashOK`, `ZeroOK`, `voidFree`, `shortArrays`, the codec contract on encoding/json)
+       and the OS hypotheses of 2. The first run is PROVED not to fail: it exits 0 or 1 (1 exactly
+       when the text is not empty) and emits `Render(a.Diff(b))`; the second exits 0 and emits the
+       rendering of a document structurally equal to `b` that `Equals` `b`.
+    4. `-color` BREAKS THE ROUND TRIP (`color_breaks_round_trip`, `color_no_library_round_trip`): `-color`
+       is in the flag set of the property, and `jd -color a b` followed by `jd -p -color T a` — the same
+       flags, the same library, the same option list, the same reader — exits 1 and then 2:
+       `ReadDiffString` rejects the ANSI escape sequences. This is not an inconsistency between the
+       two runs of the CLI: COLOUR OUTPUT IS NOT INPUT FOR `jd -p` (README: "-color  Print color diff.";
+       confirmed on the real binary: "invalid diff at line 2"). The harness therefore does NOT run
+       the round-trip leg with `-color`; what holds of colour output is C02 (`color_is_plain_plus_ansi`:
+       stripping the escape sequences gives the plain text).
   NOT STATED HERE: that `haveDiff` is false exactly when the two inputs are Equal (that is C05, about
-  the library), and the `-p` round trip (C01 / C02 / C09 / C11 / C12 for the three formats; the
-  process-level round trips are checked by correspondence).
+  the library). NOT PROVED: the instantiation of `LibRoundTrip` for `-f patch` and `-f merge` and for the
+  `-set` / `-mset` / `-setkeys` readings. For `-f patch` / `-f merge` the library theorems (C10, C11 / C12) are
+  stated on the operation list resp. the merge DOCUMENT, not on the TEXT: what is missing is the
+  library-level text parse-back (`readPatchM nc text`, `readMergeM nc text` of what `renderPatchM` /
+  `renderMergeM` print, i.e. `parseJson` of `jsonM` under the codec contract) — library work, not CLI
+  work; `cli_round_trip` covers these formats RELATIVE to it. For the set readings in the native
+  format the library theorems exist (C02 E5–E7) but are not plugged into `LibRoundTrip` here. The v1
+  library (`Ls true`) is covered by 1 and 2 only. Process-level round trips in all formats are
+  checked by correspondence (without `-color`).
 -/
 import JdProofs.CliProofs
+import JdProofs.CliRoundTrip
+
+set_option autoImplicit false
 
 namespace Jd.Props.C14
 open Jd Jd.Cli
@@ -114,5 +171,237 @@ private def exLib : LibResults :=
 example : isDiffMode exFlags ∧ (cliM .v2jd exFlags exLib).exit = 1 ∧
     (cliM .v2jd exFlags exLib).stdout = exLib.renderJd ∧ (cliM .top exFlags exLib).exit ≠ 2 :=
   ⟨⟨rfl, rfl, rfl, rfl, rfl⟩, by decide, by decide, by decide⟩
+
+/-! ## The `-p` round trip on the CLI model
+
+  Names of `Jd.CliRT` are written qualified (also those of `Jd.DPL`, `Jd.E2E`, `Jd.NativeRT`, `Jd.Spec` in
+  `native_cli_round_trip`). -/
+
+/-- the canonical `-p` twin of a diff command line: the same flags with `-p`, any `-o`, one or two
+    positional arguments (so `CliRT.PatchTwin` is inhabited for every diff command line) -/
+theorem canonical_patch_twin {fl : Flags} (hm : isDiffMode fl) (o2 : String) (n2 : Nat)
+    (hn : n2 = 1 ∨ n2 = 2) : CliRT.PatchTwin fl { fl with p := true, o := o2, nargs := n2 } :=
+  CliRT.patchTwin_with hm o2 n2 hn
+
+/-- **same option list**: the `-p` run computes the option list of the diff run, in every binary -/
+theorem patch_run_same_options (b : Binary) {fl fl2 : Flags} (h : CliRT.PatchTwin fl fl2) :
+    parsedOptions b fl2 = parsedOptions b fl :=
+  CliRT.parsedOptions_twin b h
+
+/-- **same library** (v1 or v2) -/
+theorem patch_run_same_library (b : Binary) {fl fl2 : Flags} (h : CliRT.PatchTwin fl fl2) :
+    libIsV1 b fl2 = libIsV1 b fl :=
+  CliRT.libIsV1_twin b h
+
+/-- the plan of the `-p` twin: mode "patch", the library, option list and COLOR flag of the diff
+    run; the diff is ALWAYS the first positional argument, the document to patch the second one or
+    stdin -/
+theorem patch_run_plan (b : Binary) {fl fl2 : Flags} (h : CliRT.PatchTwin fl fl2) {opts : List Opt}
+    (ho : parsedOptions b fl = .ok opts) :
+    planOf b fl2 = some ⟨"patch", libIsV1 b fl, opts, fl.color,
+      [.arg 0, if fl2.nargs = 1 then .stdin else .arg 1]⟩ :=
+  CliRT.planOf_twin b h ho
+
+/-- **the two runs call the same library with the same option list**: whenever the diff run has a
+    plan `p1`, the `-p` twin has a plan `p2` with `p1.mode = "diff"`, `p2.mode = "patch"`, the same library,
+    options and COLOR flag, and both read the first positional argument first (the document `a` in
+    the diff run, the diff text in the `-p` run) -/
+theorem plans_agree (b : Binary) {fl fl2 : Flags} (hm : isDiffMode fl) (h : CliRT.PatchTwin fl fl2)
+    {p1 : Plan} (h1 : planOf b fl = some p1) :
+    ∃ p2, planOf b fl2 = some p2 ∧ p1.mode = "diff" ∧ p2.mode = "patch" ∧ p2.v1 = p1.v1 ∧
+      p2.opts = p1.opts ∧ p2.color = p1.color ∧ parsedOptions b fl = .ok p1.opts ∧
+      parsedOptions b fl2 = .ok p1.opts ∧ p1.srcs.head? = some (.arg 0) ∧
+      p2.srcs.head? = some (.arg 0) :=
+  CliRT.plans_agree b hm h h1
+
+/-- **the CLI round trip, relative to the library round trip; one library, on `cliM` directly.**
+    `CliRT.resultsDiff L opts color fl e` / `CliRT.resultsPatch L opts fl e` are the `LibResults` obtained by
+    making the calls of a diff run / a `-p` run on the library `L` with the inputs `e` -/
+theorem core_round_trip {N D : Type} (L : CliRT.Lib N D) (b : Binary) {fl fl2 : Flags}
+    {e1 e2 : CliRT.Env} {opts : List Opt} (hm : isDiffMode fl) (h : CliRT.PatchTwin fl fl2)
+    (ho : parsedOptions b fl = .ok opts)
+    (hne : (cliM b fl (CliRT.resultsDiff L opts fl.color fl e1)).exit ≠ 2)
+    (hT : e2.in1 = .ok (CliRT.emitted (cliM b fl (CliRT.resultsDiff L opts fl.color fl e1))))
+    (ha : e2.in2 = e1.in1) (hw : fl2.o = "" ∨ e2.write = .ok ())
+    (Post : N → N → N → Prop)
+    (hrt : ∀ ta tb a b' fmt, e1.in1 = .ok ta → e1.in2 = .ok tb → L.readDoc fl.yaml ta = .ok a →
+      L.readDoc fl.yaml tb = .ok b' → formatOf fl.f = some fmt →
+      CliRT.LibRoundTrip L fmt fl.color opts a b' (Post a b')) :
+    ∃ ta tb a b' fmt T d' r, e1.in1 = .ok ta ∧ e1.in2 = .ok tb ∧ L.readDoc fl.yaml ta = .ok a ∧
+      L.readDoc fl.yaml tb = .ok b' ∧ formatOf fl.f = some fmt ∧
+      CliRT.renderAs L fmt fl.color (L.diff opts a b') = .ok T ∧
+      CliRT.emitted (cliM b fl (CliRT.resultsDiff L opts fl.color fl e1)) = T ∧
+      ((cliM b fl (CliRT.resultsDiff L opts fl.color fl e1)).exit = 0 ∨
+       (cliM b fl (CliRT.resultsDiff L opts fl.color fl e1)).exit = 1) ∧
+      L.readDiff fmt T = .ok d' ∧ L.patch a d' = .ok r ∧ Post a b' r ∧
+      (cliM b fl2 (CliRT.resultsPatch L opts fl2 e2)).exit = 0 ∧
+      CliRT.emitted (cliM b fl2 (CliRT.resultsPatch L opts fl2 e2)) = L.renderDoc fl.yaml opts r ∧
+      (cliM b fl2 (CliRT.resultsPatch L opts fl2 e2)).stderr = "" ∧
+      (fl2.o = "" →
+        (cliM b fl2 (CliRT.resultsPatch L opts fl2 e2)).stdout = L.renderDoc fl.yaml opts r ∧
+        (cliM b fl2 (CliRT.resultsPatch L opts fl2 e2)).outfile = none) ∧
+      (fl2.o ≠ "" → (cliM b fl2 (CliRT.resultsPatch L opts fl2 e2)).stdout = "" ∧
+        (cliM b fl2 (CliRT.resultsPatch L opts fl2 e2)).outfile
+          = some (L.renderDoc fl.yaml opts r)) :=
+  CliRT.core_round_trip L b hm h ho hne hT ha hw Post hrt
+
+/-- **C14, last sentence, on the CLI model, relative to the library round trip** (all three
+    binaries, formats jd / patch / merge, JSON / YAML, `-o` in either run, file or stdin in either
+    run). IF the first process `jd [flags] a b` did not exit 2, FILE1 of the second run `jd -p [flags]`
+    holds the bytes the first run emitted, its second input the bytes of the first input of the first
+    run, writing its `-o` file (if any) succeeds, and the library the plan selects has the round-trip
+    property for the parsed documents (`CliRT.LibRoundTrip`, postcondition `Post a b r`), THEN the two
+    plans exist and name the same library and option list; the inputs of the first run were read
+    and parsed to `a`, `b'`; the first run emitted the rendering `T` of their diff in the format of `-f`
+    and exited 0 or 1; `T` is read back, `patch a` of it gives `r` with `Post a b' r`; and the second
+    process exits 0, writes nothing to stderr, and emits EXACTLY `renderDoc fl.yaml opts r` — on stdout
+    (and no file) without `-o`, in the file (and nothing on stdout) with `-o` -/
+theorem cli_round_trip (Ls : Bool → CliRT.LibPack) (b : Binary) {fl fl2 : Flags}
+    {e1 e2 : CliRT.Env} (hm : isDiffMode fl) (h : CliRT.PatchTwin fl fl2)
+    (hne : (CliRT.proc Ls b fl e1).exit ≠ 2)
+    (hT : e2.in1 = .ok (CliRT.emitted (CliRT.proc Ls b fl e1)))
+    (ha : e2.in2 = e1.in1) (hw : fl2.o = "" ∨ e2.write = .ok ())
+    (Post : (Ls (libIsV1 b fl)).N → (Ls (libIsV1 b fl)).N → (Ls (libIsV1 b fl)).N → Prop)
+    (hrt : ∀ opts ta tb a b' fmt, parsedOptions b fl = .ok opts → e1.in1 = .ok ta →
+      e1.in2 = .ok tb → (Ls (libIsV1 b fl)).lib.readDoc fl.yaml ta = .ok a →
+      (Ls (libIsV1 b fl)).lib.readDoc fl.yaml tb = .ok b' → formatOf fl.f = some fmt →
+      CliRT.LibRoundTrip (Ls (libIsV1 b fl)).lib fmt fl.color opts a b' (Post a b')) :
+    ∃ opts p1 p2 ta tb a b' fmt T d' r,
+      planOf b fl = some p1 ∧ planOf b fl2 = some p2 ∧ p1.mode = "diff" ∧ p2.mode = "patch" ∧
+      p1.v1 = libIsV1 b fl ∧ p2.v1 = libIsV1 b fl ∧ p1.opts = opts ∧ p2.opts = opts ∧
+      e1.in1 = .ok ta ∧ e1.in2 = .ok tb ∧
+      (Ls (libIsV1 b fl)).lib.readDoc fl.yaml ta = .ok a ∧
+      (Ls (libIsV1 b fl)).lib.readDoc fl.yaml tb = .ok b' ∧ formatOf fl.f = some fmt ∧
+      CliRT.renderAs (Ls (libIsV1 b fl)).lib fmt fl.color
+        ((Ls (libIsV1 b fl)).lib.diff opts a b') = .ok T ∧
+      CliRT.emitted (CliRT.proc Ls b fl e1) = T ∧
+      ((CliRT.proc Ls b fl e1).exit = 0 ∨ (CliRT.proc Ls b fl e1).exit = 1) ∧
+      (Ls (libIsV1 b fl)).lib.readDiff fmt T = .ok d' ∧
+      (Ls (libIsV1 b fl)).lib.patch a d' = .ok r ∧ Post a b' r ∧
+      (CliRT.proc Ls b fl2 e2).exit = 0 ∧
+      CliRT.emitted (CliRT.proc Ls b fl2 e2) = (Ls (libIsV1 b fl)).lib.renderDoc fl.yaml opts r ∧
+      (CliRT.proc Ls b fl2 e2).stderr = "" ∧
+      (fl2.o = "" →
+        (CliRT.proc Ls b fl2 e2).stdout = (Ls (libIsV1 b fl)).lib.renderDoc fl.yaml opts r ∧
+        (CliRT.proc Ls b fl2 e2).outfile = none) ∧
+      (fl2.o ≠ "" → (CliRT.proc Ls b fl2 e2).stdout = "" ∧
+        (CliRT.proc Ls b fl2 e2).outfile
+          = some ((Ls (libIsV1 b fl)).lib.renderDoc fl.yaml opts r)) :=
+  CliRT.cli_round_trip Ls b hm h hne hT ha hw Post hrt
+
+/-- **C14, last sentence, END TO END for the native format, list reading, v2 library: no library
+    hypothesis.** `jd [-precision e] [-yaml] [-o F] a b` followed by `jd -p [same flags] [-o G] T a`, where
+    `Ls false` is the v2 library of the model (`CliRT.nativeLib nc Y`; nothing is assumed about the YAML
+    carrier `Y`). If the two inputs are read and parse to `a`, `b'` in the domain of C02 (E4), then the
+    first process exits 0 or 1 (1 exactly when the text is not empty) and emits the text `T` of
+    `a.Diff(b')` (on stdout, or in the `-o` file); `ReadDiffString T` succeeds, `a.Patch` of it succeeds
+    with a list document `r` structurally equal to `b'` that `Equals` `b'` (`DPL.PrecMono`: when
+    `-precision` is given); and the second process exits 0, writes nothing to stderr, and emits
+    `Json()` / `Yaml()` of `r` — on stdout without `-o`, in the file with `-o` -/
+theorem native_cli_round_trip (FL : Spec.FloatLaws) (nc : NumCodec) (Y : CliRT.YamlCarrier)
+    (Ls : Bool → CliRT.LibPack) (hL : Ls false = ⟨Json, Diff, CliRT.nativeLib nc Y⟩)
+    (b : Binary) {fl fl2 : Flags} {e1 e2 : CliRT.Env}
+    (hm : isDiffMode fl) (h : CliRT.PatchTwin fl fl2) (hv2 : libIsV1 b fl = false)
+    (hset : fl.set = false) (hmset : fl.mset = false) (hkeys : fl.setkeys = "")
+    (hfmt : formatOf fl.f = some .jd) (hcolor : fl.color = false)
+    (hn : fl.nargs = 1 ∨ fl.nargs = 2)
+    {ta tb : String} {a b' : Json}
+    (hi1 : e1.in1 = .ok ta) (hi2 : e1.in2 = .ok tb) (hw1 : fl.o = "" ∨ e1.write = .ok ())
+    (hra : (CliRT.nativeLib nc Y).readDoc fl.yaml ta = .ok a)
+    (hrb : (CliRT.nativeLib nc Y).readDoc fl.yaml tb = .ok b')
+    (ha1 : a.listDoc = true) (ha2 : a.wf = true) (ha3 : a.finiteNums = true)
+    (hb1 : b'.listDoc = true) (hb2 : b'.wf = true) (hb3 : b'.finiteNums = true)
+    (H : DPL.HashOK [Opt.prec fl.precision] a b') (Z : DPL.ZeroOK a b')
+    (hva : E2E.voidFree a = true) (hvb : E2E.voidFree b' = true)
+    (hlen : E2E.shortArrays b' = true)
+    (hv : ∀ z ∈ DPL.subterms a ++ DPL.subterms b',
+      (marshalNode nc z).isSome = true ∧ NativeRT.ValOK nc z)
+    (hp : ∀ h ∈ diffM [Opt.prec fl.precision] a b',
+      (jsonM nc (pathToJson h.path)).isSome = true ∧ NativeRT.PathOK nc h.path)
+    (hT : e2.in1 = .ok (CliRT.emitted (CliRT.proc Ls b fl e1)))
+    (ha : e2.in2 = e1.in1) (hw : fl2.o = "" ∨ e2.write = .ok ()) :
+    ∃ T d' r,
+      renderM nc [] (diffM [Opt.prec fl.precision] a b') = some T ∧
+      CliRT.emitted (CliRT.proc Ls b fl e1) = T ∧
+      (CliRT.proc Ls b fl e1).exit = (if T = "" then 0 else 1) ∧
+      (fl.o = "" → (CliRT.proc Ls b fl e1).stdout = T ∧ (CliRT.proc Ls b fl e1).outfile = none) ∧
+      (fl.o ≠ "" → (CliRT.proc Ls b fl e1).stdout = "" ∧
+        (CliRT.proc Ls b fl e1).outfile = some T) ∧
+      readDiffM nc T = .ok d' ∧ patchM a d' = .ok r ∧
+      Spec.specEq r b' = true ∧ Spec.specEq b' r = true ∧ r.listDoc = true ∧
+      (DPL.PrecMono [Opt.prec fl.precision] →
+        Spec.equivB [Opt.prec fl.precision] r b' = true ∧
+        equals [Opt.prec fl.precision] r b' = true) ∧
+      (CliRT.proc Ls b fl2 e2).exit = 0 ∧ (CliRT.proc Ls b fl2 e2).stderr = "" ∧
+      CliRT.emitted (CliRT.proc Ls b fl2 e2) =
+        (CliRT.nativeLib nc Y).renderDoc fl.yaml [Opt.prec fl.precision] r ∧
+      (fl2.o = "" → (CliRT.proc Ls b fl2 e2).stdout =
+          (CliRT.nativeLib nc Y).renderDoc fl.yaml [Opt.prec fl.precision] r ∧
+        (CliRT.proc Ls b fl2 e2).outfile = none) ∧
+      (fl2.o ≠ "" → (CliRT.proc Ls b fl2 e2).stdout = "" ∧
+        (CliRT.proc Ls b fl2 e2).outfile =
+          some ((CliRT.nativeLib nc Y).renderDoc fl.yaml [Opt.prec fl.precision] r)) :=
+  CliRT.native_cli_round_trip FL nc Y Ls hL b hm h hv2 hset hmset hkeys hfmt hcolor hn hi1 hi2 hw1
+    hra hrb ha1 ha2 ha3 hb1 hb2 hb3 H Z hva hvb hlen hv hp hT ha hw
+
+/-! ### `-color`: colour output is not input for `jd -p`
+
+  `CliRT.ColorWitness.flc` = `jd -color a.json b.json`, `flc2` = `jd -p -color T a.json`, on the files
+  `{"a":"ab"}` (`cA`) and `{"a":"ac"}` (`cB`); `cText` = `@ ["a"]` / `- "a␛[31mb␛[0m"` / `+ "a␛[32mc␛[0m"`;
+  `CliRT.NativeExample.Ls` is the v2 library of the model with the codec `exCodec`, `o0` = the option list
+  `[Precision 0]` of a command line without `-precision`. -/
+
+/-- **the library-level round trip is FALSE with COLOR** (v2 library of the model): `ReadDiffString`
+    rejects the coloured text, whatever postcondition is asked -/
+theorem color_no_library_round_trip :
+    ¬ CliRT.LibRoundTrip (CliRT.nativeLib NativeRT.exCodec CliRT.NativeExample.noYaml) .jd true
+        CliRT.NativeExample.o0 CliRT.ColorWitness.cA CliRT.ColorWitness.cB (fun _ => True) :=
+  CliRT.ColorWitness.color_no_libRoundTrip
+
+/-- **the round trip of C14 fails for the flag `-color`**: `jd -color a.json b.json` exits 1 and prints
+    the coloured text; `jd -p -color T a.json` — a `PatchTwin`: the same flags, library, option list
+    and reader, fed exactly those bytes — exits 2 -/
+theorem color_breaks_round_trip :
+    isDiffMode CliRT.ColorWitness.flc ∧
+    CliRT.PatchTwin CliRT.ColorWitness.flc CliRT.ColorWitness.flc2 ∧
+    (CliRT.proc CliRT.NativeExample.Ls .v2jd CliRT.ColorWitness.flc CliRT.ColorWitness.ec1).exit = 1 ∧
+    (CliRT.proc CliRT.NativeExample.Ls .v2jd CliRT.ColorWitness.flc CliRT.ColorWitness.ec1).stdout
+      = CliRT.ColorWitness.cText ∧
+    CliRT.ColorWitness.ec2.in1 = .ok (CliRT.emitted
+      (CliRT.proc CliRT.NativeExample.Ls .v2jd CliRT.ColorWitness.flc CliRT.ColorWitness.ec1)) ∧
+    CliRT.ColorWitness.ec2.in2 = CliRT.ColorWitness.ec1.in1 ∧
+    (CliRT.proc CliRT.NativeExample.Ls .v2jd CliRT.ColorWitness.flc2 CliRT.ColorWitness.ec2).exit = 2 :=
+  CliRT.ColorWitness.color_breaks_round_trip
+
+/-! Non-vacuity of the round-trip section.
+    `native_cli_round_trip` on two concrete JSON files (`CliRT.NativeExample`: `{"k":[true,null,["x"]]}`
+    and `{"k":[false,null,["x","y"]],"n":null}`, codec `exCodec`, `jd a.json b.json` then
+    `jd -p -o out.json T a.json`): every hypothesis is discharged, only `FloatLaws` remains; the first
+    process exits 1 and prints the diff text, the second exits 0, prints nothing and writes to
+    `out.json` the JSON text of a document that `Equals` the second file.
+    `cli_round_trip` on a toy library (`CliRT.Toy`: format patch, `-o` and stdin in the first run only,
+    `-yaml -set -color`, the top-level binary): all hypotheses hold and the conclusion is what
+    evaluation gives. -/
+
+example (L : Spec.FloatLaws) :
+    ∃ T r, T = CliRT.NativeExample.exText ∧
+      (CliRT.proc CliRT.NativeExample.Ls .v2jd CliRT.NativeExample.fl1 CliRT.NativeExample.e1).stdout
+        = T ∧
+      (CliRT.proc CliRT.NativeExample.Ls .v2jd CliRT.NativeExample.fl1 CliRT.NativeExample.e1).exit
+        = 1 ∧
+      Spec.specEq r E2E.Example.exB = true ∧ equals CliRT.NativeExample.o0 r E2E.Example.exB = true ∧
+      (CliRT.proc CliRT.NativeExample.Ls .v2jd CliRT.NativeExample.fl2 CliRT.NativeExample.e2).exit
+        = 0 ∧
+      (CliRT.proc CliRT.NativeExample.Ls .v2jd CliRT.NativeExample.fl2 CliRT.NativeExample.e2).stdout
+        = "" ∧
+      (CliRT.proc CliRT.NativeExample.Ls .v2jd CliRT.NativeExample.fl2 CliRT.NativeExample.e2).outfile
+        = some ((jsonM NativeRT.exCodec r).getD "") :=
+  CliRT.NativeExample.ex_cli_end_to_end L
+
+example : isDiffMode CliRT.Toy.toyFl ∧ CliRT.PatchTwin CliRT.Toy.toyFl CliRT.Toy.toyFl2 ∧
+    (∀ fmt color opts a b,
+      CliRT.LibRoundTrip CliRT.Toy.toyLib fmt color opts a b (fun r => r = b)) :=
+  ⟨⟨rfl, rfl, rfl, rfl, rfl⟩, canonical_patch_twin ⟨rfl, rfl, rfl, rfl, rfl⟩ "" 2 (.inr rfl),
+    CliRT.Toy.toy_libRoundTrip⟩
 
 end Jd.Props.C14
